@@ -289,29 +289,40 @@ Proof.
   exists z. split; [right; exact Hz1|exact Hz2].
 Qed.
 
-(** ** C07 for the placement loop *)
+(** ** C07 for the placement loop
+    [c0] is the state the accounting refers to (the start of the cycle), [c] the state at the start of this loop. *)
 Section Displace.
-  Variables (c : cell) (q pre0 post0 : list Z) (ch : list (Z * Z)) (x : Z) (a : app) (n : Z) (s : server).
+  Variables (c0 c : cell) (q pre0 post0 : list Z) (ch : list (Z * Z)) (x : Z) (a0 a : app) (n : Z) (s0 : server).
   Hypothesis Hq : q = pre0 ++ x :: post0.
   Hypothesis Hnd : NoDup q.
-  Hypothesis HA : Acct c.
-  Hypothesis HF : Aff c.
-  Hypothesis HI : Ident c.
+  Hypothesis Hp0 : psteps c0 c.
+  Hypothesis HA0 : Acct c0.
+  Hypothesis HF0 : Aff c0.
+  Hypothesis HI0 : Ident c0.
+  Hypothesis Ha0 : app_of c0 x = Some a0.
+  Hypothesis Hsv0 : a_server a0 = Some n.
+  Hypothesis Hs0 : get_srv n (c_servers c0) = Some s0.
   Hypothesis Ha : app_of c x = Some a.
-  Hypothesis Hsv : a_server a = Some n.
-  Hypothesis Hs : get_srv n (c_servers c) = Some s.
-  Hypothesis Hbl : a_blacklisted a = false.
+  Hypothesis Hk : keeps_r a0 a.
+  Hypothesis Hbl : a_blacklisted a0 = false.
   Hypothesis Hren : a_renew a = false.
   Hypothesis Hrank : a_rank a <> UNPLACED_RANK.
-  Hypothesis Hid : has_id a.
-  Hypothesis Hlab : forall l, app_label a = Some l -> l = s_label s.
-  Hypothesis Htr : app_traits c a = 0 \/ has_traits (s_traits s) (app_traits c a) = true.
+  Hypothesis Hid : has_id a0.
+  Hypothesis Hlab : forall l, app_label a0 = Some l -> l = s_label s0.
+  Hypothesis Htr : app_traits c0 a0 = 0 \/ has_traits (s_traits s0) (app_traits c0 a0) = true.
 
   Theorem find_placements_displaced :
     (exists a', app_of (find_placements c q ch) x = Some a' /\ a_server a' = Some n) \/
-    (exists z az az', In z pre0 /\ app_of c z = Some az /\ app_of (find_placements c q ch) z = Some az' /\
-                      a_server az' = Some n /\ a_server az <> Some n).
+    (exists z az0 bz, z <> x /\ app_of c0 z = Some az0 /\ a_server az0 <> Some n /\ a_server bz = Some n /\
+                      ((In z pre0 /\ app_of (find_placements c q ch) z = Some bz) \/
+                       (~ In z pre0 /\ app_of c z = Some bz))).
   Proof.
+    pose proof Hk as (Kd & Ksv & Kex & Kev & Kun & Krn).
+    assert (HA : Acct c) by (eapply Acct_psteps; eassumption).
+    assert (HI : Ident c) by (eapply Ident_psteps; eassumption).
+    assert (Hsv : a_server a = Some n) by congruence.
+    assert (Hbla : a_blacklisted a = false) by (destruct Kd as (_ & _ & _ & _ & _ & _ & _ & _ & _ & _ & _ & _ & Hb & _); congruence).
+    assert (Hida : has_id a) by (eapply has_id_dyn; eassumption).
     unfold find_placements. set (rq := rev q). set (st0 := mkLoop c [] [] ch).
     rewrite Hq, fold_left_app. cbn [fold_left]. fold rq.
     set (st1 := fold_left (place_one rq) pre0 st0).
@@ -327,25 +338,27 @@ Section Displace.
     { intros st2 Hp2. unfold rq. apply (done_fold c q (pre0 ++ [x]) post0 st2 x Hnd); [exists []; rewrite <- app_assoc; exact Hq|apply in_or_app; right; left; reflexivity|exact HA|exact Hp2]. }
     destruct (Hw1 x (fun f => f) Hx_pre a Ha) as [[Hcur Hev]|(sn & Hsn & Hcur & Hev)].
     - (* never evicted: passed over in its own turn *)
-      left. destruct (place_one_stays rq st1 x a n Hcur Hsv Hbl Hren Hrank) as (a2 & Ha2 & (_ & Ks & _)).
+      left. destruct (place_one_stays rq st1 x a n Hcur Hsv Hbla Hren Hrank) as (a2 & Ha2 & (_ & Ks & _)).
       exists a2. split; [|congruence]. rewrite Hdone_x; [exact Ha2|eapply ps_trans; [exact Hp1|apply place_one_ps]].
     - (* evicted by somebody ahead *)
       rewrite Hsv in Hsn. inversion Hsn; subst sn.
       set (c2 := c_upd_app x (fun z => z <| a_renew := false |>) (l_cell st1)).
       assert (Hp2 : psteps c c2) by (eapply ps_trans; [exact Hp1|apply ps_one, PS_soft, soft_renew]).
-      destruct (psteps_srv_exists _ _ _ _ Hp2 Hs) as (s2 & Hs2).
-      destruct (zincl_dec (s_apps s2) (s_apps s)) as [Hincl|Hnincl].
+      assert (Hp02 : psteps c0 c2) by (eapply ps_trans; eassumption).
+      destruct (psteps_srv_exists _ _ _ _ Hp02 Hs0) as (s2 & Hs2).
+      destruct (zincl_dec (s_apps s2) (s_apps s0)) as [Hincl|Hnincl].
       + (* nobody new on the server: restored *)
         left.
         assert (Ha2 : app_of c2 x = Some (removed a <| a_renew := false |>)) by (apply upd_app_self; [reflexivity|exact Hcur]).
         assert (Hg : put_guard c2 s2 (removed a <| a_renew := false |>) 0 = true).
-        { apply (restore_guard c c2 x a _ n s s2 HA HF Hp2 Ha Hsv Hs Hlab Htr Ha2); [repeat split|reflexivity|exact Hs2|exact Hincl]. }
-        assert (Hh : has_id (removed a)) by (destruct Hid as [H|H]; [left|right]; exact H).
+        { apply (restore_guard c0 c2 x a0 _ n s0 s2 HA0 HF0 Hp02 Ha0 Hsv0 Hs0 Hlab Htr Ha2); [|reflexivity|exact Hs2|exact Hincl].
+          eapply stat_eq_trans; [apply dyn_stat; exact Kd|repeat split]. }
+        assert (Hh : has_id (removed a)) by (destruct Hida as [H|H]; [left|right]; exact H).
         assert (Hput : srv_put_lease c2 n x 0 <> None).
         { unfold srv_put_lease. rewrite Hs2. unfold app_of in Ha2. rewrite Ha2, Hg. discriminate. }
-        destruct (place_one_restores rq st1 x (removed a) n (a_expiry a) HI1 Hcur Hbl Hrank Hren eq_refl Hh Hev Hput) as (a3 & Ha3 & Hsv3).
+        destruct (place_one_restores rq st1 x (removed a) n (a_expiry a) HI1 Hcur Hbla Hrank Hren eq_refl Hh Hev Hput) as (a3 & Ha3 & Hsv3).
         exists a3. split; [|exact Hsv3]. rewrite Hdone_x; [exact Ha3|eapply ps_trans; [exact Hp1|apply place_one_ps]].
-      + (* somebody ahead took the room *)
+      + (* somebody took the room *)
         right. destruct (not_incl_witness _ _ Hnincl) as (z & Hz2 & Hz0).
         assert (HA2 : Acct c2) by (eapply Acct_psteps; eassumption).
         destruct (ac_listed _ HA2 _ _ _ Hs2 Hz2) as (bz & Hbz & Hsbz).
@@ -354,14 +367,17 @@ Section Displace.
           unfold app_of in E. rewrite E in Hbz. inversion Hbz; subst bz. cbn in Hsbz. discriminate. }
         assert (Hbz1 : app_of (l_cell st1) z = Some bz).
         { assert (E : app_of c2 z = app_of (l_cell st1) z) by (apply upd_app_other; [reflexivity|exact Hzx]). rewrite <- E. exact Hbz. }
-        destruct (app_of c z) as [az|] eqn:Eaz.
-        2:{ rewrite (psteps_none _ _ z Hp1 Eaz) in Hbz1. discriminate. }
-        assert (Hnaz : a_server az <> Some n) by (intros E; apply Hz0; eapply (ac_placed _ HA); eassumption).
-        assert (Hzpre : In z pre0).
-        { destruct (in_dec Z.eq_dec z pre0) as [H|H]; [exact H|exfalso].
-          destruct (Hw1 z (fun f => f) H az Eaz) as [[E _]|(sn & _ & E & _)]; rewrite Hbz1 in E; inversion E; subst bz; [congruence|cbn in Hsbz; discriminate]. }
-        exists z, az, bz. split; [exact Hzpre|]. split; [exact Eaz|]. split; [|split; [exact Hsbz|exact Hnaz]].
-        change (app_of (l_cell (fold_left (place_one rq) (x :: post0) st1)) z = Some bz).
-        unfold rq. rewrite (done_fold c q pre0 (x :: post0) st1 z Hnd); [exact Hbz1|exists []; exact Hq|exact Hzpre|exact HA|exact Hp1].
+        destruct (app_of c0 z) as [az0|] eqn:Eaz0.
+        2:{ rewrite (psteps_none _ _ z (ps_trans _ _ _ Hp0 Hp1) Eaz0) in Hbz1. discriminate. }
+        assert (Hnaz : a_server az0 <> Some n) by (intros E; apply Hz0; eapply (ac_placed _ HA0); eassumption).
+        exists z, az0, bz. split; [exact Hzx|]. split; [exact Eaz0|]. split; [exact Hnaz|]. split; [exact Hsbz|].
+        destruct (in_dec Z.eq_dec z pre0) as [Hzpre|Hzpre].
+        * left. split; [exact Hzpre|].
+          change (app_of (l_cell (fold_left (place_one rq) (x :: post0) st1)) z = Some bz).
+          unfold rq. rewrite (done_fold c q pre0 (x :: post0) st1 z Hnd); [exact Hbz1|exists []; exact Hq|exact Hzpre|exact HA|exact Hp1].
+        * right. split; [exact Hzpre|].
+          destruct (app_of c z) as [az|] eqn:Eaz.
+          2:{ rewrite (psteps_none _ _ z Hp1 Eaz) in Hbz1. discriminate. }
+          destruct (Hw1 z (fun f => f) Hzpre az Eaz) as [[E _]|(sn & _ & E & _)]; rewrite Hbz1 in E; inversion E; subst bz; [reflexivity|cbn in Hsbz; discriminate].
   Qed.
 End Displace.
